@@ -262,6 +262,13 @@ func (x *Exec) binop(a *activation, b *ssa.BasicBlock, i int, in *ssa.BinOp, fr 
 		return false
 	case l.k == 'F' && r.k == 'F':
 		if isCmp {
+			if x.ord != nil {
+				if c, ok := x.ord(l.prov, r.prov); ok {
+					t := cmpConst(in.Op, int64(c), 0)
+					fr.vals[in] = boolAV(t, !t)
+					return false
+				}
+			}
 			fr.vals[in] = AV{k: 'B', tri: 3}
 			return false
 		}
@@ -295,6 +302,13 @@ func (x *Exec) binop(a *activation, b *ssa.BasicBlock, i int, in *ssa.BinOp, fr 
 		if l.sk && r.sk && (in.Op == token.EQL || in.Op == token.NEQ) {
 			fr.vals[in] = res(l.s == r.s)
 			return false
+		}
+		if isCmp && x.ord != nil {
+			if c, ok := x.ord(l.prov, r.prov); ok {
+				t := cmpConst(in.Op, int64(c), 0)
+				fr.vals[in] = boolAV(t, !t)
+				return false
+			}
 		}
 		if in.Op == token.EQL || in.Op == token.NEQ {
 			// s == "" decided by the atoms of s
